@@ -514,9 +514,14 @@ def gen_ft(rng, tier):
             dmax = step * n - 1
             d = rng.choice([0, 1, step - 1, step, step + 1, 2 * step, dmax, rng.range(0, dmax), (rng.range(0, n) * step) % (dmax + 1)])
             d = max(0, min(d, dmax))
-            kind = rng.choice(["T", "T", "A"])
+            kind = rng.choice(["T", "T", "A", "N"])
             rq = "%d:%s:%d" % (r, kind, d)
-            if kind == "T" and rng.chance(1, 3):
+            if kind == "N":
+                # the AfterFunc callback requests a timer of the same wheel and waits for it (re-entrancy)
+                d2 = rng.choice([0, step - 1, step, 2 * step + 1, rng.range(0, dmax)])
+                rq += ":%d" % max(0, min(d2, dmax))
+                kind = "A"      # the tie stream has no nested requests
+            elif kind == "T" and rng.chance(1, 3):
                 d2 = rng.choice([0, step - 1, step, 2 * step + 1, rng.range(0, dmax)])
                 rq += ":%d" % max(0, min(d2, dmax))
             reqs.append(rq)
@@ -562,7 +567,7 @@ def ft_expect_all(cases):
         for rq in reqs:
             if len(rq) > 3:
                 d, d2 = int(rq[2]), int(rq[3])
-                eff = d2 if d2 >= step else d          # Reset(x) keeps the old interval for x < step
+                eff = d2 if (d2 >= step or rq[1] == "N") else d          # Reset(x) keeps the old interval for x < step; N = a fresh NewTimer(d2)
                 for pre in ft_pres(step, int(rq[0])):
                     f1 = _FIRE_CACHE[(step, n, pre, d)]
                     if f1 is not None:
@@ -580,7 +585,7 @@ def ft_expect_all(cases):
                     opts.append(("panic",))
                 elif len(rq) > 3:
                     d2 = int(rq[3])
-                    f2 = _FIRE_CACHE[(step, n, f1, d2 if d2 >= step else d)]
+                    f2 = _FIRE_CACHE[(step, n, f1, d2 if (d2 >= step or rq[1] == "N") else d)]
                     opts.append((f1 * step, f2 * step) if f2 is not None else ("panic",))
                 else:
                     opts.append((f1 * step,))
